@@ -105,6 +105,8 @@ struct World {
     open_ports: HashMap<u64, (usize, u64)>, // port -> (opener endpoint, req)
     connects_sent: HashMap<(usize, u64), usize>, // (opener endpoint, port) -> Connect frames seen on the wire
     dg_owed: [std::collections::VecDeque<String>; 2], // datagrams accepted by send_datagram, not yet seen on the wire
+    free_ids: [std::collections::HashSet<u32>; 2],   // flow ids an endpoint has certainly let go of (and not taken up again)
+    bind_ids: [std::collections::HashSet<u32>; 2],   // flow ids under which an endpoint has a bind request out
     port_handle: HashMap<u64, [Option<usize>; 2]>,
     finished_cleanly: HashMap<(usize, usize), bool>,
     aborted: HashMap<(usize, usize), bool>,
@@ -244,6 +246,8 @@ impl World {
             open_ports: HashMap::new(),
             connects_sent: HashMap::new(),
             dg_owed: [std::collections::VecDeque::new(), std::collections::VecDeque::new()],
+            free_ids: [std::collections::HashSet::new(), std::collections::HashSet::new()],
+            bind_ids: [std::collections::HashSet::new(), std::collections::HashSet::new()],
             port_handle: HashMap::new(),
             finished_cleanly: HashMap::new(),
             aborted: HashMap::new(),
@@ -494,6 +498,21 @@ impl World {
                             && self.backlog[e][0] < self.opts[e].accept_cap && self.backlog[e][1] < self.opts[e].bind_cap;
                         if sure { self.bind_due[e] += 1; } else { self.bind_unsure[e] = true; }
                     }
+                    if (op == 2 || op == 3) && frame_valid(t[2]) { self.bind_ids[e].remove(&id); }
+                    if op == 2 && frame_valid(t[2]) && up_e && !lagging { self.free_ids[e].insert(id); }
+                    if op == 0 && frame_valid(t[2]) && id != 0 && self.free_ids[e].contains(&id) && up_e && self.view[e].mux_alive && !self.in_batch && !lagging {
+                        // C06: once an endpoint has let go of a flow id, the id is free there - a Connect on it is
+                        // a new stream, to be acknowledged, not "in use"
+                        *self.mon.entry("connect-on-released-id/judged").or_insert(0) += 1;
+                        let reset_id = format!("wire {}", hexd(&[&[0x72u8][..], &id.to_be_bytes()[..]].concat()));
+                        if evs.split("; ").any(|x| x == reset_id) {
+                            let msg = format!("endpoint {} had let go of flow id {id:08x} (it reset the flow itself, or was told the peer reset it) and has not taken it up again, yet it answers a Connect on that id with a Reset as if the id were in use: its flow table still holds state for a stream neither application has", NAMES[e]);
+                            if !self.fails.iter().any(|f| f.0 == "C06" && f.1 == "id-not-released") {
+                                self.fails.push(("C06".into(), "id-not-released".into(), msg));
+                            }
+                        }
+                    }
+                    if op == 0 { self.free_ids[e].remove(&id); }
                     if op == 0 { self.backlog[e][0] += 1; }
                     if op == 5 { self.backlog[e][1] += 1; }
                     if op == 0 {
@@ -907,6 +926,20 @@ impl World {
                     if let Some((op, id, _)) = parse_frame(m) {
                         if op == 4 { self.wire_push[e] += 1; }
                         if op == 6 { self.wire_dgram[e] += 1; }
+                        // the certainly-free shadow (C06): e takes the id up when it proposes it or acknowledges a
+                        // Connect on it; e has let go of it when it resets it on a local drop, or answers an
+                        // Acknowledge with a Reset (nothing there, or a request its caller gave up on whose stream
+                        // is closed at once) unless the id carries a bind request of e
+                        match op {
+                            0 | 1 => { self.free_ids[e].remove(&id); }
+                            5 => { self.free_ids[e].remove(&id); self.bind_ids[e].insert(id); }
+                            2 if up_e && !self.in_batch && !lagging => {
+                                let local_drop = matches!(t[0], "dropstream" | "dropmany");
+                                let to_ack = t[0] == "deliver" && t.get(1) == Some(&"bin") && t.get(2).and_then(|h| parse_frame(h)).is_some_and(|f| f.0 == 1 && f.1 == id) && frame_valid(t[2]);
+                                if (local_drop || to_ack) && !self.bind_ids[e].contains(&id) { self.free_ids[e].insert(id); }
+                            }
+                            _ => {}
+                        }
                         let reused_before = self.reused;
                         if (op == 0 || op == 5) && self.seen_ids.contains(&id) {
                             self.reused = true;
@@ -1564,7 +1597,7 @@ fn run_case(r: &mut Rng, focus: Focus, len: usize) -> World {
                 let hl = match r.below(8) { 0 => 0, 1 => 255, 2 => 300, _ => r.range(1, 10) as usize };
                 // the port is the pairing key: unique per request
                 w.stim(e, &[s("open"), s(req), hexd(&r.bytes(hl)), s(1000 + req)]);
-            } else if matches!(focus, Focus::C10 | Focus::C07 | Focus::C08) && r.chance(1, 6) && !w.view[e].opens.is_empty() {
+            } else if matches!(focus, Focus::C10 | Focus::C07 | Focus::C08 | Focus::C06) && r.chance(1, 6) && !w.view[e].opens.is_empty() {
                 // the application gives up on a pending open request (a timeout around the call)
                 let mut reqs: Vec<u64> = w.view[e].opens.keys().copied().collect();
                 reqs.sort_unstable();
@@ -1720,6 +1753,50 @@ fn frame_level_case(r: &mut Rng, focus: Focus) -> World {
 /// has consumed a few frames (fewer than its threshold) when it shuts its write side down; the peer
 /// then writes as fast as its credit allows while the half-closed end does not read; finally
 /// everything is read. The half-closed direction must stay fully usable: no reset, every byte, EOF last.
+/// C06 / C07: an open request whose caller gives up (a timeout around `new_stream_channel`), the peer's
+/// Acknowledge arriving afterwards, and then the same flow id proposed again by the peer once everything
+/// of the first exchange has been delivered: the id is free on both endpoints.
+fn abandoned_open_case(r: &mut Rng, focus: Focus) -> World {
+    let oa = gen_opts(r, focus);
+    let ob = gen_opts(r, focus);
+    let mut w = World::new([oa, ob]);
+    let x = r.range(1, 0xffff_fffe);
+    for e in 0..2 {
+        let mut t = vec![s("rng"), s(x)];
+        t.extend((0..7).map(|_| s(r.range(1, 0xffff_ffff))));
+        w.stim(e, &t);
+        w.view[e].rng_left = 8;
+    }
+    let oe = r.below(2) as usize;
+    let pe = 1 - oe;
+    let req = w.next_req; w.next_req += 1;
+    w.stim(oe, &[s("open"), s(req), hexd(&r.bytes(2)), s(1000 + req)]);
+    let early = r.chance(1, 2);
+    if early { w.stim(oe, &[s("cancelopen"), s(req)]); }
+    while w.deliver_next(pe) {}
+    if !early { w.stim(oe, &[s("cancelopen"), s(req)]); }
+    // the late Acknowledge; whatever the requester answers travels back
+    while w.deliver_next(oe) {}
+    while w.deliver_next(pe) {}
+    // the peer's application takes the stream and lets go of it (or never looks at it)
+    if r.chance(2, 3) {
+        w.stim(pe, &[s("accept")]);
+        if !w.view[pe].handles.is_empty() {
+            if r.chance(1, 2) { w.stim(pe, &[s("read"), s(0), s(64)]); }
+            w.stim(pe, &[s("dropstream"), s(0)]);
+        }
+    }
+    for _ in 0..3 { while w.deliver_next(oe) {} while w.deliver_next(pe) {} }
+    // nobody holds the id any more: the peer's next request draws it
+    let req2 = w.next_req; w.next_req += 1;
+    w.stim(pe, &[s("open"), s(req2), hexd(&r.bytes(3)), s(1000 + req2)]);
+    for _ in 0..3 { while w.deliver_next(oe) {} while w.deliver_next(pe) {} }
+    w.stim(oe, &[s("accept")]);
+    fair_completion(&mut w, 20);
+    final_checks(&mut w);
+    w
+}
+
 fn half_close_reply_case(r: &mut Rng, focus: Focus) -> World {
     let mut oa = gen_opts(r, focus);
     let ob = gen_opts(r, focus);
@@ -2523,6 +2600,18 @@ fn main() {
             let mut r = base.fork(k);
             match catch(|| half_close_reply_case(&mut r, focus)) {
                 Ok(w) => handle_world(w, "half-close-reply", &mut rep, &mut drv),
+                Err(p) => rep.fail(FailKind::Impl, "harness-panic", &format!("panic outside a stimulus: {p}"), json!({})),
+            }
+        }
+    }
+    // an open request its caller gave up on, the late Acknowledge, and the id proposed again
+    if matches!(focus, Focus::C06 | Focus::C07 | Focus::C10) {
+        let n = match args.tier { Tier::Quick => 30, Tier::Thorough => 600 };
+        let base = Rng::new(args.seed ^ fnv(focus.name().as_bytes()) ^ 0x6162_616e_64);
+        for k in 0..n {
+            let mut r = base.fork(k);
+            match catch(|| abandoned_open_case(&mut r, focus)) {
+                Ok(w) => handle_world(w, "abandoned-open", &mut rep, &mut drv),
                 Err(p) => rep.fail(FailKind::Impl, "harness-panic", &format!("panic outside a stimulus: {p}"), json!({})),
             }
         }
